@@ -43,7 +43,7 @@ def run(ctx):
     ctx.decided("writer seek provenance (SEEK); declaration padding to 17 slots with 0xFF terminator (DECL)")
     ctx.decided("attribute encoders round before every float to integer cast (ENCODE)")
     ctx.decided("edit operations store the geometry supplied by the caller; update_headers derives every header field from the model (EDIT)")
-    ctx.not_decided("inverse-ness of the attribute codecs on all values; update_headers arithmetic; edit histories; terrain-shadow tables")
+    ctx.not_decided("inverse-ness of the attribute codecs on all values; update_headers arithmetic beyond its order and operands; edit histories; terrain-shadow tables")
 
     for t in TREE:
         d = w2(ctx, [t])
@@ -419,6 +419,34 @@ def run(ctx):
             return False
 
         ctx.ob("EDIT", "headers|start_index", has2("start_index", {"submeshes", "submesh_index", "index_offset"}), "mesh.start_index = submeshes[mesh.submesh_index].index_offset", uhb.file, uhb.line, sample=True)
+        # order inside update_headers: a header field that the size formulas read (calculate_runtime_size /
+        # calculate_stack_size) and that update_headers itself refreshes is refreshed BEFORE the formula runs — the
+        # runtime size feeds every LOD data offset, so a count refreshed afterwards leaves them one edit behind
+        size_calls = [(bi_, t_) for bi_, t_ in uhb.calls() if (t_.get("res") or "").split("::")[-1] in ("calculate_runtime_size", "calculate_stack_size")]
+        if not size_calls:
+            ctx.fail_closed("EDIT", "update_headers: no call of calculate_runtime_size / calculate_stack_size found")
+        read_by_formula = set()
+        for _bi, t_ in size_calls:
+            fb_ = prog.body(t_.get("res"))
+            if fb_:
+                for _b, _s, st_ in fb_.stmts():
+                    rv_ = st_.get("rv") or {}
+                    for o_ in (rv_.get("a"), rv_.get("b")):
+                        pl_ = (o_ or {}).get("c") or (o_ or {}).get("m") if isinstance(o_, dict) else None
+                        for pr_ in (pl_ or {}).get("p", []):
+                            if isinstance(pr_, dict) and pr_.get("n") and str(pr_.get("a", "")).endswith(("ModelHeader", "ModelFileHeader")):
+                                read_by_formula.add(pr_["n"])
+        n_ord = 0
+        for bi_, si_, st_ in uhb.stmts():
+            if st_.get("k") != "assign":
+                continue
+            prj = [pr_ for pr_ in st_["lhs"].get("p", []) if isinstance(pr_, dict) and pr_.get("n")]
+            if not prj or not str(prj[-1].get("a", "")).endswith(("ModelHeader", "ModelFileHeader")) or prj[-1]["n"] not in read_by_formula:
+                continue
+            n_ord += 1
+            late = [cb_ for cb_, ct_ in size_calls if not uhb.dominates(bi_, cb_)]  # a statement precedes its own block's call
+            ctx.ob("EDIT", f"headers|refreshed-before-sizes|{prj[-1]['n']}", not late, f"update_headers refreshes header.{prj[-1]['n']}, which the size formulas read; the store must dominate the size computation (it does not for {len(late)} of {len(size_calls)} formula call(s))", uhb.file, uhb.line, sample=(n_ord == 1))
+        ctx.floor("EDIT", "header counts refreshed by update_headers that its size formulas read", n_ord, 3)
         acc_ok = False
         for _bi, _si, s_ in uhb.stmts():
             rv = s_.get("rv", {})
